@@ -128,8 +128,40 @@ static void check_table(D &d)
 			VF_CHECK(c == 0, "model:table:stale-entry", "after %s: id %#" PRIxPTR " resolves to an entry although nothing is registered", cur_op, dom[i]);
 		}
 	}
+	for (auto &kv : model) {
+		mpt::command *c = d.handler(kv.first);
+		VF_CHECK(c != 0, "model:table:registration-lost", "after %s: id %#" PRIxPTR " (registration #%d) is not found by dispatch::handler()", cur_op, kv.first, kv.second->serial);
+		VF_CHECK(c->arg == kv.second, "model:table:wrong-entry", "after %s: id %#" PRIxPTR " resolves to argument %p, model says registration #%d", cur_op, kv.first, c->arg, kv.second->serial);
+	}
 	vf_count("monitor:table-compared", 1);
 	VF_CHECK(d.def() == mdef, "model:default:bookkeeping", "after %s: dispatcher default id %#" PRIxPTR ", model %#" PRIxPTR, cur_op, d.def(), mdef);
+}
+/* dispatch::reserve(): reply id reservation on the dispatcher's own table */
+static int rawtable;
+static void op_reserve(D &d, vf_rng *r, char *one, size_t n, bool first)
+{
+	size_t width = 1 + vf_below(r, 8);
+	uintptr_t wmax = width >= 8 ? (uintptr_t) INT64_MAX : ((uintptr_t) 1 << (8 * width - 1)) - 1;
+	begin_op("dispatch::reserve");
+	vf_fp_u64(0x700 + width);
+	vf_at("dispatch::reserve");
+	vf_count("dispatch::reserve", 1);
+	mpt::command *c = d.reserve(width);
+	vf_log("reserve(%zu)%s = %p id=%#" PRIxPTR, width, first ? " [first table operation]" : "", (void *) c, c ? c->id : 0);
+	snprintf(one, n, " reserve(%zu)%s%s", width, first ? "[first]" : "", c ? "" : "!");
+	VF_CHECK(op_events == 0 && op_fins == 0, "model:reserve:handler-invoked", "dispatch::reserve invoked a handler");
+	if (!c) { vf_count("reserve:refused", 1); return; }
+	vf_count("monitor:reserved-id-unique", 1);
+	VF_CHECK(c->id != 0, "model:reserve:zero-id", "reserve(%zu) returned id 0", width);
+	VF_CHECK(model.find(c->id) == model.end(), "model:reserve:duplicate-id", "reserve(%zu) returned id %#" PRIxPTR " which is registered", width, c->id);
+	VF_CHECK(c->id <= wmax, "model:reserve:id-exceeds-width", "reserve(%zu) returned id %#" PRIxPTR, width, c->id);
+	reg *g = new_reg(c->id);
+	g->state = RegLive;
+	c->cmd = (int (*)(void *, void *)) hnd;
+	c->arg = g;
+	model[c->id] = g;
+	if (first) rawtable = 1;
+	vf_count(first ? "reserve:first-table-operation" : "reserve:accepted", 1);
 }
 static void make_plan(vf_rng *r)
 {
@@ -185,6 +217,12 @@ void vf_case(uint64_t, vf_rng *r)
 		}
 		desc = libfb ? "fallback=library:" : "fallback=harness:";
 		vf_fp_u64(libfb);
+		rawtable = 0;
+		if (vf_chance(r, 1, 4)) {
+			op_reserve(d, r, one, sizeof(one), true);
+			check_table(d);
+			desc += one;
+		}
 		for (int i = 0; i < nops; i++) {
 			uint32_t c = vf_below(r, 100);
 			uintptr_t id = dom[vf_below(r, NDOM)];
@@ -252,6 +290,8 @@ void vf_case(uint64_t, vf_rng *r)
 				snprintf(one, sizeof(one), " set_error");
 				check_fins(want);
 				fb = g;
+			} else if (c < 60) {
+				op_reserve(d, r, one, sizeof(one), false);
 			} else if (c < 88) {
 				begin_op("emit");
 				make_plan(r);
@@ -306,6 +346,11 @@ void vf_case(uint64_t, vf_rng *r)
 		}
 		/* destructor: every live registration and the fallback end here */
 		begin_op("dispatch::~dispatch");
+		{
+			int live = 0;
+			for (auto &g : regs) if (g->state == RegLive && !g->fallback) live++;
+			if (rawtable && live) vf_count("fini:reserve-created-table-with-live-handlers", 1);
+		}
 		for (auto &g : regs) if (g->state == RegLive) g->fin_allowed = true;
 		vf_at("dispatch::~dispatch");
 		vf_count("dispatch::~dispatch", 1);
